@@ -69,6 +69,9 @@ pub fn gen_history_spec(rng: &mut Prng, prop: &str, with_jitter: bool, max_ops: 
         spec.pre = rng.below(pre_range(kind) + 1) as u32;
         spec.ops = gen_output_ops(rng, kind, max_ops);
         maybe_long_haul(rng, &mut spec.ops, 400);
+        if rng.chance(1, 60) && make_zero_word_run(rng, &mut spec, false) {
+            spec.variant = "history_zero_word_state".into();
+        }
     }
     spec
 }
